@@ -74,6 +74,9 @@ def parseReq (kind : Kind) : List String → Option ReqSpec
 inductive Op
   | init (t n : Nat)
   | req (q : ReqSpec)
+  /-- the request is put on the manager's request channel and the sender does NOT yield: the manager
+  sees it only together with whatever the following ops send (a burst within one wake-up) -/
+  | reqBurst (q : ReqSpec)
   | adv (dt : Nat)
   | jump (dt : Nat)
   | shutdown
@@ -85,6 +88,8 @@ def parseOp : List String → Option Op
     | _, _ => none
   | "open" :: rest => (parseReq .open rest).map .req
   | "cancel" :: rest => (parseReq .cancel rest).map .req
+  | "open+" :: rest => (parseReq .open rest).map .reqBurst
+  | "cancel+" :: rest => (parseReq .cancel rest).map .reqBurst
   | ["adv", dt] => dt.toNat?.map .adv
   | ["jump", dt] => dt.toNat?.map .jump
   | ["shutdown"] => some .shutdown
@@ -111,6 +116,10 @@ def model : Drv MSt where
       let s1 := run m.cfg m.s [.intake q]
       let s2 := run m.cfg s1 (settleSched m.cfg s1)
       (⟨m.cfg, s2⟩, mObs m.s s2)
+    | some (.reqBurst q) =>
+      -- intake order = send order (one FIFO request channel); nothing is polled before the burst ends
+      let s1 := run m.cfg m.s [.intake q]
+      (⟨m.cfg, s1⟩, mObs m.s s1)
     | some (.adv dt) =>
       let s1 := run m.cfg m.s (promptSched m.cfg m.s dt)
       (⟨m.cfg, s1⟩, mObs m.s s1)
@@ -167,6 +176,11 @@ def spec : Drv SSt where
       if !s.running || s.broken then (s, [])
       else if !s.cfg.configured q.key then ({ s with broken := true }, [])
       else sEmit { s with reqs := s.reqs ++ [⟨s.now, q, false⟩] } s.now false
+    | some (.reqBurst q) =>
+      -- registered at the current instant; what is due is stated at the next op that lets the manager run
+      if !s.running || s.broken then (s, [])
+      else if !s.cfg.configured q.key then ({ s with broken := true }, [])
+      else ({ s with reqs := s.reqs ++ [⟨s.now, q, false⟩] }, [])
     | some (.adv dt) =>
       if !s.running || s.broken then (s, []) else sEmit s (s.now + dt) false
     | some (.jump dt) =>
